@@ -508,7 +508,9 @@ class Unit:
         expr = str(self.expr)
         base_value = copy.deepcopy(self.base_value)
         base_offset = copy.deepcopy(self.base_offset)
-        dimensions = copy.deepcopy(self.dimensions)
+        # sympy expressions are immutable; a deep copy would only replace the
+        # dimension singletons by equal-but-not-identical symbols
+        dimensions = self.dimensions
         if deep:
             registry = copy.deepcopy(self.registry)
         else:
